@@ -178,15 +178,56 @@ def job(args):
     return r
 
 
+MEMTYPES = ["SDR", "DDR", "LPDDR", "DDR2", "DDR3", "DDR4", "LPDDR4", "LPDDR5"]
+# DRAM burst length in columns, from the standards (SDR: the PHYs program BL = number of phases, see init.py / C17)
+JEDEC_BURST = {"DDR": 4, "LPDDR": 4, "DDR2": 4, "DDR3": 8, "DDR4": 8, "LPDDR4": 16, "LPDDR5": 16}
+
+
+def align_check():
+    """`address_align` as the real LiteDRAMController derives it, for every memory type x phase count: against the model
+    (Model/AddrMap.alignOf) and against the burst length of the DRAM (one port word must be exactly one burst)."""
+    from litedram.common import PhySettings, GeomSettings, TimingSettings
+    from litedram.core.controller import LiteDRAMController, ControllerSettings
+    r = Result()
+    cases = [(m, n) for m in MEMTYPES for n in (1, 2, 4, 8)]
+    mo = core.run_driver("c06", ["%d %d" % (MEMTYPES.index(m), n) for m, n in cases])
+    for (m, n), line in zip(cases, mo):
+        ps = PhySettings(phytype="verif", memtype=m, databits=16, dfi_databits=16, nphases=n, rdphase=0, wrphase=0, cl=2, cwl=2,
+                         read_latency=4, write_latency=1, nranks=1)
+        gs = GeomSettings(2, 11, 8)
+        ts = TimingSettings(tRP=2, tRCD=2, tWR=2, tWTR=2, tREFI=200, tRFC=8, tFAW=None, tCCD=1, tRRD=None, tRC=None, tRAS=None, tZQCS=None)
+        try:
+            ctl = LiteDRAMController(ps, gs, ts, clk_freq=100e6, controller_settings=ControllerSettings())
+            impl = ctl.interface.address_align
+        except Exception as e:
+            impl = "error %r" % (e,)
+        r.evaluations += 1
+        r.distinct.add(("align", m, n))
+        if str(impl) != line.strip():
+            r.mismatches.append(dict(where="LiteDRAMController address_align vs Model/AddrMap.alignOf", memtype=m, nphases=n, impl=impl, model=line))
+        burst = n if m == "SDR" else JEDEC_BURST[m]
+        if isinstance(impl, int) and (1 << impl) != burst:
+            r.violations.append(dict(signature="c06-align-burst",
+                what="%s with %d phases: the controller uses address_align=%d, i.e. consecutive port addresses are %d columns apart, but one DRAM burst is "
+                     "%d columns: %s" % (m, n, impl, 1 << impl, burst, "consecutive port addresses reach overlapping bursts (not injective)"
+                                         if (1 << impl) < burst else "columns between consecutive bursts are unreachable (not onto)"),
+                replay=dict(memtype=m, nphases=n, address_align=impl, burst=burst)))
+    r.coverage["align_cases"] = len(cases)
+    return r
+
+
 def run(tier, seed):
     rnd = random.Random("c06-geoms-%d" % seed)
     jobs = [(g, tier, seed) for g in geoms(tier, rnd)]
     res = Result()
+    res.merge(align_check())
     for r in core.pmap(job, jobs):
         res.merge(r)
     return res
 
 
 def replay(data, tier, seed):
+    if "geometry" not in data["violation"]["replay"]:
+        return align_check()
     g = tuple(data["violation"]["replay"]["geometry"])
     return job((g, tier, seed))
